@@ -2,7 +2,7 @@
    (bool/option/list/prod/unit/sumbool mapped to OCaml's); N, Z, positive and
    nat stay the extracted inductive datatypes.  No Extract Constant. *)
 From Coq Require Extraction ExtrOcamlBasic.
-From SyModel Require Import Adler Delta Filter Bisync Engine Wire Sparse Verify Links Temp Crash Caches.
+From SyModel Require Import Adler Delta Filter Bisync Engine Wire Sparse Verify Links Temp Crash Caches Xattr.
 Extraction Language OCaml.
 Set Extraction AccessOpaque.
 Extraction "model.ml"
@@ -13,7 +13,7 @@ Extraction "model.ml"
   Engine.run Engine.exit_status
   Wire.should_compress_smart Wire.sniff_receive_file Wire.sniff_apply_delta Sparse.receive_sparse Sparse.detect Sparse.pack
   Verify.verify Verify.verify_exit
-  Links.sync_link Links.wrote_through
+  Links.sync_link Links.wrote_through Xattr.xstep Xattr.xinit Xattr.observe_attrs
   Temp.temp_name Temp.temp_path Temp.with_extension Temp.pinned_temp_path Temp.run_tasks Temp.fpath_eqb
   Crash.crash_state Crash.program_ok Crash.replans Crash.uses_temp Crash.rerun Crash.holds_source
   Caches.db_lookup Caches.db_store Caches.dc_update Caches.dc_dir_mtime Caches.dc_empty Caches.plan_resume Engine.mtime_matches.
